@@ -28,6 +28,12 @@ from src.analyzers.typescript_base import (
 from .typescript_function_extractor import TypeScriptFunctionExtractor
 
 
+def _is_else_if(node: Node) -> bool:
+    """Check whether node is the `if` of an `else if` link (does not add a nesting level)."""
+    parent = node.parent
+    return node.type == "if_statement" and parent is not None and parent.type == "else_clause"
+
+
 class TypeScriptNestingAnalyzer(TypeScriptBaseAnalyzer):
     """Calculates maximum nesting depth in TypeScript functions."""
 
@@ -75,6 +81,8 @@ class TypeScriptNestingAnalyzer(TypeScriptBaseAnalyzer):
                 max_depth_line = node.start_point[0] + 1
 
             new_depth = current_depth + 1 if node.type in self.NESTING_NODE_TYPES else current_depth
+            if _is_else_if(node):
+                new_depth = current_depth  # an else-if chain is one construct, like Python elif
 
             for child in node.children:
                 visit_node(child, new_depth)
